@@ -132,6 +132,12 @@ def make_kernel(name, width, boundary, used=False):
         t = tk.mk_track(list(range(n)))
         t.createAnalyticalFeature("h", [float((7 * i) % 5) for i in range(n)])
         t.operate(Operator.FILTER, "h", k, "h2")
+    if not boundary and not used and width * 2 % 3 == 0:
+        # the documented default is "boundaries not filtered": this kernel relies on it (its setter is never called), after
+        # ANOTHER kernel object was configured the other way
+        other = K.GaussianKernel(1)
+        other.setFilterBoundary(True)
+        return k
     k.setFilterBoundary(boundary)
     return k
 
